@@ -186,6 +186,16 @@ fn validate_map<F: Fam, const N: usize>(d: &mut Drv, mut m: Map<F::K, F::V, N>, 
                 problems.push(format!("yielded key of class {} cannot be looked up", c));
             }
         }
+        // batch lookups on the survivor: two present keys (and one absent) against what get_mut gives
+        if seen.len() >= 2 {
+            let (a, b) = (seen[0], seen[seen.len() - 1]);
+            let want: Vec<Option<u32>> = [a, b, ABSENT + 1].iter().map(|c| lookup!(F, *c, true, |q| m.get_mut::<QT!()>(q).map(|v| v.payload()))).collect();
+            let (ka, kb, kc) = (F::K::mk(a, 0xFFFE), F::K::mk(b, 0xFFFE), F::K::mk(ABSENT + 1, 0xFFFE));
+            let got: Vec<Option<u32>> = m.get_disjoint_mut::<F::K, 3>([&ka, &kb, &kc]).iter().map(|x| x.as_ref().map(|v| v.payload())).collect();
+            if got != want {
+                problems.push(format!("get_disjoint_mut of classes [{}, {}, absent] gives values {:?}; get_mut gives {:?}", a, b, got, want));
+            }
+        }
         // exercise
         let len = m.len();
         if len < N && !seen.contains(&FRESH) {
